@@ -55,8 +55,21 @@ func HarnessConcurrentSchemaCache() {
 	}
 	var r1, r2 j5schema.RootSchema
 	var e1, e2 error
-	verifSpawn(func() { r1, e1 = cache.Schema(m1) })
-	verifSpawn(func() { r2, e2 = cache.Schema(m2) })
+	// each goroutine reflects its type and makes the first use of the schema the
+	// way the codec does (newPropSet walks ClientProperties of the shared schema objects)
+	use := func(r j5schema.RootSchema, e error, m *j5schema.VerifMessage) {
+		if e != nil {
+			return
+		}
+		switch s := r.(type) {
+		case *j5schema.ObjectSchema:
+			_, _ = newPropSet(s, m)
+		case *j5schema.OneofSchema:
+			_, _ = newPropSet(s, m)
+		}
+	}
+	verifSpawn(func() { r1, e1 = cache.Schema(m1); use(r1, e1, m1) })
+	verifSpawn(func() { r2, e2 = cache.Schema(m2); use(r2, e2, m2) })
 	verifJoin()
 	// each call returns what it returns when run alone
 	alone := j5schema.NewSchemaCache()
